@@ -1,0 +1,133 @@
+//go:build verif && (unix || windows)
+
+package vgirpc
+
+import (
+	"bytes"
+	"encoding/binary"
+
+	"github.com/apache/arrow-go/v18/arrow"
+)
+
+// Verification hooks for property C34 (shared-memory allocator). Add-only.
+//
+// The header layout constants are not copied by hand: they are recovered by
+// running initializeHeader / writeAllocs on a scratch in-memory header and
+// locating little-endian probe patterns in the bytes they produce. A probe that
+// is not found yields -1, which makes the Coq layout lemmas fail at `make`.
+
+func verifShmFind(hay, needle []byte) int64 { return int64(bytes.Index(hay, needle)) }
+
+func verifFirstNonZero(b []byte) int64 {
+	for i, x := range b {
+		if x != 0 {
+			return int64(i)
+		}
+	}
+	return -1
+}
+
+func init() {
+	verifConstProviders = append(verifConstProviders, func() []VerifConst {
+		const pat = 0x1112131415161718
+		le64 := func(v uint64) []byte { b := make([]byte, 8); binary.LittleEndian.PutUint64(b, v); return b }
+		le32 := func(v uint32) []byte { b := make([]byte, 4); binary.LittleEndian.PutUint32(b, v); return b }
+
+		// fixed part: magic / version / data_size
+		s := &ShmSegment{size: ShmHeaderSize + pat, data: make([]byte, ShmHeaderSize)}
+		_ = s.initializeHeader()
+		fixed := append([]byte(nil), s.data[:shmHeaderFixedSize]...)
+		offMagic := verifShmFind(fixed, shmMagic[:])
+		offDS := verifShmFind(fixed, le64(pat))
+		rest := append([]byte(nil), fixed...)
+		if offMagic >= 0 {
+			for i := range shmMagic {
+				rest[int(offMagic)+i] = 0
+			}
+		}
+		if offDS >= 0 {
+			for i := 0; i < 8; i++ {
+				rest[int(offDS)+i] = 0
+			}
+		}
+		offVer := verifFirstNonZero(rest)
+		if offVer < 0 || offVer+4 > int64(len(rest)) || !bytes.Equal(rest[offVer:offVer+4], le32(shmVersion)) {
+			offVer = -1
+		}
+
+		// count field: three all-zero entries leave the count as the only non-zero byte
+		z := &ShmSegment{size: 2 * ShmHeaderSize, data: make([]byte, ShmHeaderSize)}
+		z.writeAllocs(make([][2]uint64, 3))
+		offCount := verifFirstNonZero(z.data)
+		if offCount < 0 || !bytes.Equal(z.data[offCount:offCount+4], le32(3)) {
+			offCount = -1
+		}
+
+		// entries: base, stride and the position of the length inside one entry
+		e := &ShmSegment{size: 2 * ShmHeaderSize, data: make([]byte, ShmHeaderSize)}
+		e.writeAllocs([][2]uint64{{0x2122232425262728, 0x3132333435363738}, {0x4142434445464748, 0x5152535455565758}})
+		base := verifShmFind(e.data, le64(0x2122232425262728))
+		lenAt := verifShmFind(e.data, le64(0x3132333435363738))
+		second := verifShmFind(e.data, le64(0x4142434445464748))
+		entryLenOff, stride := int64(-1), int64(-1)
+		if base >= 0 && lenAt >= 0 {
+			entryLenOff = lenAt - base
+		}
+		if base >= 0 && second >= 0 {
+			stride = second - base
+		}
+
+		return []VerifConst{
+			verifNum("shm_header_size", ShmHeaderSize),
+			verifNum("shm_fixed_size", shmHeaderFixedSize),
+			verifNum("shm_entry_size", shmAllocEntrySize),
+			verifNum("shm_max_allocs", ShmMaxAllocs),
+			verifBytes("shm_magic", string(shmMagic[:])),
+			verifNum("shm_version", int64(shmVersion)),
+			verifNum("shm_off_magic", offMagic),
+			verifNum("shm_off_version", offVer),
+			verifNum("shm_off_data_size", offDS),
+			verifNum("shm_off_count", offCount),
+			verifNum("shm_off_entries", base),
+			verifNum("shm_entry_stride", stride),
+			verifNum("shm_entry_len_off", entryLenOff),
+		}
+	})
+}
+
+// VerifAllocate runs allocateLocked under the segment mutex.
+func (s *ShmSegment) VerifAllocate(size int) (uint64, bool) {
+	s.mu.Lock()
+	defer s.mu.Unlock()
+	return s.allocateLocked(size)
+}
+
+// VerifCanFit runs canFitLocked under the segment mutex.
+func (s *ShmSegment) VerifCanFit(size int) bool {
+	s.mu.Lock()
+	defer s.mu.Unlock()
+	return s.canFitLocked(size)
+}
+
+// VerifAllocs returns the allocation table as readAllocs sees it.
+func (s *ShmSegment) VerifAllocs() [][2]uint64 {
+	s.mu.Lock()
+	defer s.mu.Unlock()
+	return s.readAllocs()
+}
+
+// VerifHeaderBytes returns a copy of the first n bytes of the mapping.
+func (s *ShmSegment) VerifHeaderBytes(n int) []byte {
+	s.mu.Lock()
+	defer s.mu.Unlock()
+	if n > len(s.data) {
+		n = len(s.data)
+	}
+	if n < 0 {
+		n = 0
+	}
+	return append([]byte(nil), s.data[:n]...)
+}
+
+// VerifEstimateSerializedSize exposes estimateSerializedSize.
+func VerifEstimateSerializedSize(batch arrow.RecordBatch) int { return estimateSerializedSize(batch) }
